@@ -4,6 +4,8 @@ policy whose documented meaning is unambiguous (untagged collection on, grace pe
 their subject, dangling referrers kept) the survivors are exactly the closure of the tagged manifests and the referrers of
 retained subjects; no index entry is left without content; a second pass changes nothing; an emptied repository
 directory is removed when so configured; a failing or removed repository does not stop the store-wide pass."""
+import json
+
 import apicheck
 from api import *
 import gcgen
@@ -78,7 +80,9 @@ def oracle(ctx, case, io):
             continue
         pre, post = o["pre"], o["post"]
         gg = g[st["repo"]]
-        hist = lambda **kw: oracles.hist(case, k, None, policy={x: pol.get(x) for x in ("untagged", "dangling", "withsubj", "grace_ms", "emptyrepo")}, **kw)
+        # (the replay carries the probes after the collection: the oracle judges the collection by them)
+        kend = max([j for j, s_ in enumerate(case["steps"]) if tuple(s_.get("gcprobe") or ()) == ("post", st["gcid"])] + [k])
+        hist = lambda **kw: oracles.hist(case, kend, None, policy={x: pol.get(x) for x in ("untagged", "dangling", "withsubj", "grace_ms", "emptyrepo")}, **kw)
         if res.get("err") and not st.get("may_fail"):
             ctx.violation("collection failed: %s" % res["err"][:200], hist(), "C06:gc-error")
             continue
@@ -87,7 +91,9 @@ def oracle(ctx, case, io):
             if s != 200 and "MANIFEST_BLOB_UNKNOWN" in (errs or []):
                 # entries of the in-memory child list (children of an index or of a referrers response) are not pruned
                 childish = any(m["kind"] == "index" and d in m["refs"] for m in gg["man"].values()) or bool(gg["man"].get(d, {}).get("subject"))
-                tagged_now = d in rstate[k][0].values()
+                # (a tag the collection pruned together with its entry answers MANIFEST_UNKNOWN afterwards: what is left is
+                #  the record in the child list)
+                tagged_now = any(dd == d and "MANIFEST_UNKNOWN" not in ((post.get("tagerrs") or {}).get(t) or []) for t, dd in rstate[k][0].items())
                 # known (F38) only when the content was already missing before this collection; an entry whose content
                 # this very collection removed must have been pruned with it
                 sig = "C06:child-entry-without-blob" if childish and not tagged_now and pre["blob"].get(d) != 200 else "C06:entry-without-blob"
@@ -152,6 +158,20 @@ def make_cases(ctx, first):
                 repo = w.repo()
                 for _ in range(rng.randrange(0, 4)):
                     w.mutate(repo)
+                if rng.random() < 0.3 and w.g[repo].tags:
+                    # a pass that has an entry to prune but no blob to delete: the garbage is collected first, then a tagged
+                    # image loses its own blob while a twin under another tag still references its config and layers
+                    w.age(repo, "all")
+                    gcn += 1
+                    w.collect(repo, gcn)
+                    tagged = [d for d in sorted(set(w.g[repo].tags.values())) if w.g[repo].man.get(d, {}).get("kind") == "image" and not w.g[repo].man[d].get("subject")]
+                    if tagged:
+                        d0 = rng.choice(tagged)
+                        j = json.loads(w.g[repo].bytes[d0].decode())
+                        j["annotations"] = dict(j.get("annotations") or {}, twin=str(len(w.steps)))
+                        twin = json.dumps(j).encode()
+                        w.push(repo, twin, MT_OCI_M, list(w.g[repo].man[d0]["refs"]), tag="t2" if w.g[repo].tags.get("t2") != d0 else "t1", kind="image")
+                        w.add(blob_delete(repo, d0))
                 w.age(repo, "all")
                 gcn += 1
                 w.collect(repo, gcn)
